@@ -10,8 +10,9 @@ from mc.ref import bencode
 OPTION_VALUES = {
     "announce": [None, ["http://t1/announce"],
                  ["http://t1/announce", "http://t2/announce"]],
-    "web-seed": [None, ["http://w1/x"]],
-    "http-seed": [None, ["http://h1/x"]],
+    "web-seed": [None, ["http://w1/x"], ["http://w1/x", "http://w2/y"]],
+    "http-seed": [None, ["http://h1/x"], ["http://h1/x", "http://h2/y",
+                                          "http://h3/z"]],
     "private": [None, True],
     "source": [None, "src"],
     "comment": [None, "a comment"],
@@ -124,7 +125,9 @@ class OptionsCheck:
             "option names, in two styles: A = multi-line values for list "
             "options and only the switched-on booleans; B = single-line value "
             "for one-element lists, `private = True`, explicit `private = "
-            "false` / `align = false` for switched-off booleans",
+            "false` / `align = false` for switched-off booleans; C = list "
+            "entries separated by blank lines, list keys present but empty "
+            "when the option is not given",
             "one two-file payload; values per option from a small alphabet",
             "CLI orders: every permutation and every content-path position "
             "for subsets of <= 3 flags; canonical, reversed and rotated "
@@ -149,9 +152,10 @@ class OptionsCheck:
             for align in ((False, True) if version == "1" else (False,)):
                 for outform in ("file", "dir"):
                     for a in range(len(OPTION_VALUES["announce"])):
-                        gs.append({"version": version, "align": align,
-                                   "out": outform, "a": a, "seed": seed,
-                                   "tier": tier})
+                        for wsi in range(len(OPTION_VALUES["web-seed"])):
+                            gs.append({"version": version, "align": align,
+                                       "out": outform, "a": a, "ws": wsi,
+                                       "seed": seed, "tier": tier})
         return gs
 
     # routes -----------------------------------------------------------
@@ -204,10 +208,18 @@ class OptionsCheck:
                     if v is None:
                         if style == "B" and o == "private":
                             lines.append("private = false")
+                        if style == "C" and o in LISTY:
+                            lines.append(f"{o} =")     # present but empty
                         continue
                     if o in LISTY:
                         if style == "B" and len(v) == 1:
                             lines.append(f"{o} = {v[0]}")
+                        elif style == "C":
+                            # entries separated by blank lines, trailing
+                            # blank line
+                            lines.append(f"{o} =")
+                            for x in v:
+                                lines += ["    " + x, ""]
                         else:
                             lines.append(f"{o} =")
                             lines += ["    " + x for x in v]
@@ -275,12 +287,14 @@ class OptionsCheck:
         for opts in self.combos():
             if OPTION_VALUES["announce"].index(opts["announce"]) != g["a"]:
                 continue
+            if OPTION_VALUES["web-seed"].index(opts["web-seed"]) != g["ws"]:
+                continue
             check = expected_fields(opts, version, align)
             outs = {}
-            for route in ("kw", "cli", "config", "config-B"):
+            for route in ("kw", "cli", "config", "config-B", "config-C"):
                 outs[route] = self.run_route(
                     route.split("-")[0], opts, version, align, outform, root,
-                    sandbox, style="B" if route.endswith("-B") else "A")
+                    sandbox, style=route[-1] if "-" in route else "A")
                 res.transitions += 1
                 res.evals += 1
             res.states += 1
@@ -304,7 +318,7 @@ class OptionsCheck:
                                   dict(case, route=route), optnames)
                 res.outcomes["ok" if not probs else probs[0]] += 1
             if "kw" in metas:
-                for route in ("cli", "config", "config-B"):
+                for route in ("cli", "config", "config-B", "config-C"):
                     if route in metas and metas[route] != metas["kw"]:
                         diff = sorted(
                             k.decode() for k in set(metas[route]) | set(
@@ -354,8 +368,8 @@ class OptionsCheck:
                                    sandbox)
         route = case["route"]
         style = "A"
-        if route == "config-B":
-            route, style = "config", "B"
+        if route in ("config-B", "config-C"):
+            route, style = "config", route[-1]
         argv = None
         if route == "cli-order":
             argv = [a if a != "<PATH>" else root for a in case["argv"]]
